@@ -9,7 +9,7 @@ compared (duplicates are C02's business).
 from __future__ import annotations
 
 from .. import qast as Q
-from ..common import (X, Y, leaves_single, leaves_xy, REPRESENTATIVE_4, REPRESENTATIVE_8, XY_REP, rich_world, VARS3,
+from ..common import (X, Y, A, leaves_single, leaves_xy, REPRESENTATIVE_4, REPRESENTATIVE_8, XY_REP, rich_world, VARS3, VARS_SELF,
                       grid_world, eval_rows, diff_rows, row_labels, is_exc, root_kind, to_fn_form)
 from ..isolate import run_isolated
 from ..space import trees_by_depth
@@ -48,6 +48,14 @@ def cases(tier, inst):
             yield ("xy", t, "op")
             if thorough:
                 yield ("xy", to_fn_form(t), "fn")
+    # two variables over ONE domain compared with each other directly (identity), and a variable compared with an object
+    # of its domain used as a constant: the comparisons in which both operands can be bound to the same object
+    for t in trees_by_depth(SELF_LEAVES, 1):
+        yield ("self", t, "op")
+        yield ("self", to_fn_form(t), "fn")
+    for t in trees_by_depth(SELF_LEAVES[:4] if thorough else SELF_LEAVES[:3], 2):
+        if Q.depth(t) == 2:
+            yield ("self", t, "op")
     if thorough:
         for pair in ((REPRESENTATIVE_8[0], REPRESENTATIVE_8[2]), (XY_REP[0], XY_REP[3])):
             vk = "xy" if pair[0] in XY_REP else "x"
@@ -56,11 +64,17 @@ def cases(tier, inst):
                     yield (vk, t, "op")
 
 
+SELF_LEAVES = [("cmp", "eq", X, Y), ("cmp", "ne", X, Y), ("cmp", "eq", X, ("ob", "DA", 1)), ("cmp", "ne", ("ob", "DA", 2), Y),
+               ("cmp", "lt", A(X, "p"), A(Y, "p")), ("cmp", "eq", A(X, "q"), A(Y, "q"))]
+
+
 def queries_of(case):
     vk, t, form = case
     neg = "inv" if form == "fn" else "not"
     if vk == "x":
         vars_, sel = VARS1, (X,)
+    elif vk == "self":
+        vars_, sel = VARS_SELF, (X, Y)
     else:
         vars_, sel = VARS3[:2], (X, Y)
     mk = lambda c: ("Q", "an", "setof", sel, (c,), vars_)     # noqa: E731
